@@ -35,6 +35,11 @@ E_IFC, E_OVERFLOW, E_OOM, E_SUBSCRIPT, E_DUPDEF, E_ILLDIRECT, E_TM, E_OOSS, E_TO
 E_STX = 2
 
 
+def norm(name):
+    """a parameter written without a sigil has the default type (single)"""
+    return name + '!' if len(name) == 1 else name
+
+
 def nid(name):
     """numeric id of a variable / function name: 10 * letter index + type code"""
     assert len(name) == 2 and name[0].isalpha() and name[1] in TYC, name
@@ -367,7 +372,7 @@ class CoqPrinter(object):
         if k == 'clear':
             return '(SClear %s)' % c_opt(st[1], c_z)
         if k == 'def':
-            return '(SDef %d [%s] %s)' % (nid(st[1]), ';'.join('%d' % nid(p) for p in st[2]), X(st[3]))
+            return '(SDef %d [%s] %s)' % (nid(st[1]), ';'.join('%d' % nid(norm(p)) for p in st[2]), X(st[3]))
         raise ValueError(st)
 
 
@@ -698,7 +703,7 @@ class Ref(object):
         elif k == 'def':
             if direct:
                 raise RefError(E_ILLDIRECT)
-            self.fns[st[1]] = (list(st[2]), st[3])
+            self.fns[st[1]] = ([norm(p) for p in st[2]], st[3])
         else:
             raise ValueError(st)
 
@@ -753,7 +758,7 @@ def check_trace(case, res, strict_fre=True):
             # arrays may have been auto-dimensioned and a function is defined before its memory is claimed
             ref.restore(snap)
             if st[0] == 'def' and not direct:
-                ref.fns[st[1]] = (list(st[2]), st[3])
+                ref.fns[st[1]] = ([norm(p) for p in st[2]], st[3])
             for n in STR_ARRAYS:
                 a = o['arr'][n]
                 if a is not None and n not in ref.arr:
@@ -836,6 +841,7 @@ class Gen(object):
         self.fnw = fnw
         self.big = big
         self.badw = badw            # probability of a deliberately ill-typed / out-of-range operand
+        self.dupw = 0.25            # probability that a parameter list repeats a name
 
     def lit(self):
         rng = self.rng
@@ -922,6 +928,7 @@ class Gen(object):
 
     def arg(self, depth, fns, p):
         rng = self.rng
+        p = norm(p)
         if rng.random() < self.badw:       # wrong type: Type mismatch
             return self.nexpr(depth, fns) if p[-1] == '$' else self.sexpr(depth, fns)
         if p[-1] == '$':
@@ -964,11 +971,21 @@ class Gen(object):
         """nf function signatures and their DEF statements"""
         rng = self.rng
         names = rng.sample(FN_NAMES, nf)
-        self.fns = [(fname, rng.sample(PARAM_NAMES, rng.choice([0, 1, 1, 2, 2, 3, 4]))) for fname in names]
+        self.fns = [(fname, self.params()) for fname in names]
         out = []
         for f in self.fns:
             out.append(self.def_stmt(f))
         return out
+
+    def params(self):
+        """0..4 parameter names; sometimes a name is repeated (possibly once with its default type, once with the
+        explicit sigil), adjacent or not"""
+        rng = self.rng
+        ps = rng.sample(PARAM_NAMES, rng.choice([0, 1, 1, 2, 2, 3, 4]))
+        if ps and len(ps) < 4 and rng.random() < self.dupw:
+            p = rng.choice(ps)
+            ps.insert(rng.randrange(len(ps) + 1), p)
+        return [p[0] if p[-1] == '!' and rng.random() < 0.5 else p for p in ps]
 
     def def_stmt(self, f, depth=3):
         rng = self.rng
@@ -983,8 +1000,8 @@ class Gen(object):
     def body(self, f, depth, others):
         """expression over the parameters, globals and other functions"""
         rng = self.rng
-        sp = [p for p in f[1] if p[-1] == '$']
-        np_ = [p for p in f[1] if p[-1] != '$']
+        sp = [norm(p) for p in f[1] if norm(p)[-1] == '$']
+        np_ = [norm(p) for p in f[1] if norm(p)[-1] != '$']
 
         def subst(e):
             # replace some variable operands by parameters
@@ -1012,6 +1029,11 @@ def gen_history(rng, nsteps, fnw=0.1, big=0.15, mems=(None, None, None, 30, 60, 
             g.big = max(big, 0.35)
     for st in g.defs(rng.choice(list(nfs))):
         steps.append({'d': 0, 's': st})
+    if fnw >= 0.5:
+        # the caller's variables named like parameters hold values of their own
+        for k, p in enumerate(PARAM_NAMES):
+            if rng.random() < 0.7:
+                steps.append({'d': 0, 's': ['let', ['sv', p], ['lit', 'g' + p[0].lower()] if p[-1] == '$' else ['num', 11 + k, '%']]})
     while len(steps) < nsteps:
         if g.fns and rng.random() < 0.04:
             steps.append({'d': 0, 's': g.def_stmt(rng.choice(g.fns), 2)})
